@@ -125,4 +125,4 @@ def run(repo, seed, tier):
             'rule': 'project trees over directories a, ab, a/build, ab/build, a/sub/build, b + each ignored folder name at '
                     'two levels, x .gitignore variants in a/ (none, relative, anchored, with comments/negation/glob) x in '
                     'the root (none, relative, anchored); one module with one function per directory; expected = '
-                    'functions outside ignored places', 'samples': samples, 'violations': uniq[:10]}
+                    'functions outside ignored places', 'samples': samples, 'violations': violations[:300]}
